@@ -258,6 +258,10 @@ func buildVS(r *vh.Rng, p map[string]int) *configs.VirtualServerEx {
 		SecretRefs:       map[string]*secrets.SecretReference{},
 		ExternalNameSvcs: map[string]bool{},
 	}
+	// unordered collections of the VirtualServerEx that generation only looks things up in
+	for i := 0; i < 3; i++ {
+		ex.ExternalNameSvcs[fmt.Sprintf("%s/extname-%s-%d", ns, words[r.Intn(len(words))], i)] = true
+	}
 	var upNames []string
 	for i := 0; i < ups; i++ {
 		un := name(r, "u", i)
@@ -421,7 +425,7 @@ func buildIngress(r *vh.Rng, p map[string]int, nm string, host string, annN int,
 		}
 		if p["hc"] > 0 {
 			ex.HealthChecks[svc+"80"] = &api_v1.Probe{ProbeHandler: api_v1.ProbeHandler{HTTPGet: &api_v1.HTTPGetAction{
-				Path: "/healthz", Port: intstr.FromInt(80), Scheme: "HTTP", HTTPHeaders: []api_v1.HTTPHeader{{Name: "Host", Value: host}}}},
+				Path: "/healthz", Port: intstr.FromInt(80), Scheme: "HTTP", HTTPHeaders: []api_v1.HTTPHeader{{Name: "Host", Value: host}, {Name: "X-Probe", Value: svc}, {Name: "Accept", Value: "text/plain"}, {Name: "B3", Value: "0"}}}},
 				PeriodSeconds: int32(1 + i), TimeoutSeconds: 1}
 		}
 	}
@@ -492,8 +496,27 @@ func buildTS(r *vh.Rng, p map[string]int, i int, passthrough bool) *configs.Tran
 	return ex
 }
 
-func buildResources(c *Case) (configs.ExtendedResources, int) {
+// shuffleEndpoints: the endpoints of a service are a SET (the controller collects them from
+// EndpointSlices through a map); every round hands them over in another order.
+func shuffleEndpoints(m map[string][]string, r *vh.Rng) {
+	keys := make([]string, 0, len(m))
+	for k := range m {
+		keys = append(keys, k)
+	}
+	sort.Strings(keys)
+	for _, k := range keys {
+		e := m[k]
+		for i := len(e) - 1; i > 0; i-- {
+			j := r.Intn(i + 1)
+			e[i], e[j] = e[j], e[i]
+		}
+	}
+}
+
+func buildResources(c *Case, round int) (configs.ExtendedResources, int) {
 	r := vh.NewRng(c.Seed)
+	sh := vh.NewRng(c.Seed ^ 0x5bd1e995).Fork(uint64(round))
+
 	var res configs.ExtendedResources
 	maxMap := 0
 	upd := func(n int) {
@@ -505,6 +528,7 @@ func buildResources(c *Case) (configs.ExtendedResources, int) {
 	case "vs":
 		ex := buildVS(r, c.P)
 		res.VirtualServerExes = []*configs.VirtualServerEx{ex}
+		shuffleEndpoints(ex.Endpoints, sh)
 		upd(c.P["keys"])
 		upd(c.P["akp"] + c.P["vsr"])
 		upd(c.P["claims"])
@@ -512,16 +536,23 @@ func buildResources(c *Case) (configs.ExtendedResources, int) {
 	case "ingress":
 		ex := buildIngress(r, c.P, "cafe-ingress", "cafe.example.com", c.P["ann"], "")
 		res.IngressExes = []*configs.IngressEx{ex}
+		shuffleEndpoints(ex.Endpoints, sh)
 		upd(len(ex.Ingress.Annotations))
 		upd(len(ex.Endpoints))
 	case "mergeable":
 		m := buildMergeable(r, c.P)
 		res.MergeableIngresses = []*configs.MergeableIngresses{m}
+		shuffleEndpoints(m.Master.Endpoints, sh)
+		for _, mn := range m.Minions {
+			shuffleEndpoints(mn.Endpoints, sh)
+		}
 		upd(len(m.Master.Ingress.Annotations))
 		upd(c.P["svcs"])
 	case "ts":
 		for i := 0; i < c.P["n"]; i++ {
-			res.TransportServerExes = append(res.TransportServerExes, buildTS(r.Fork(uint64(i)), c.P, i, c.P["pt"] > 0))
+			ts := buildTS(r.Fork(uint64(i)), c.P, i, c.P["pt"] > 0)
+			shuffleEndpoints(ts.Endpoints, sh)
+			res.TransportServerExes = append(res.TransportServerExes, ts)
 		}
 		upd(c.P["n"])
 		upd(c.P["ups"])
@@ -593,7 +624,7 @@ func runRender(c *Case) (obs RenderObs) {
 	var first map[string][]byte
 	seen := map[string]bool{}
 	for round := 0; round < c.Rounds; round++ {
-		res, mm := buildResources(c) // fresh, equal resources every time
+		res, mm := buildResources(c, round) // fresh, equal resources every time (endpoint sets in another order)
 		obs.MaxMap = mm
 		mgr.files, mgr.changed = map[string][]byte{}, false
 		before := mgr.reloads
